@@ -103,3 +103,46 @@ Definition c03_case_ok (c : mcase) : bool :=
 
 Definition c03_violations (cases : list mcase) : list nat :=
   bad_indexes (fun c => negb (c03_case_ok c)) 0 cases.
+
+(** * C02 on the exhaustive small scope: every assignment of message parts
+    (sub-terms, property names) to the pattern's variables that meets the
+    side conditions and embeds the pattern is among the returned sets *)
+Fixpoint subterms (j : json) : list json :=
+  j :: match j with
+       | JArr l => flat_map subterms l
+       | JObj kvs => flat_map (fun kv : string * json => JStr (fst kv) :: subterms (snd kv)) kvs
+       | _ => []
+       end.
+
+Fixpoint dedup_strings (l : list string) : list string :=
+  match l with
+  | [] => []
+  | s :: r => if existsb (String.eqb s) r then dedup_strings r else s :: dedup_strings r
+  end.
+
+Fixpoint assignments (vars : list string) (cands : list json) : list bindings :=
+  match vars with
+  | [] => [[]]
+  | v :: r => flat_map (fun sg : bindings => map (fun c => bset v c sg) cands) (assignments r cands)
+  end.
+
+Definition c02_enum_case_ok (c : mcase) : bool :=
+  match mc_bs c with
+  | [] =>
+      let p := mc_p c in
+      let f := mc_f c in
+      let vars := dedup_strings (filter (fun v => negb (is_anon v)) (pvars p)) in
+      forallb (fun sg => negb (c02_pre p f sg && embeds sg p f) ||
+                         match mc_go c with
+                         | GoOk rs => c02_found sg rs
+                         | _ => false
+                         end)
+              (assignments vars (subterms f))
+      && c02_case_ok c
+  | _ => true
+  end.
+
+Definition c02_enum_violations (cases : list mcase) : list nat :=
+  bad_indexes (fun c => negb (c02_enum_case_ok c)) 0 cases.
+Definition c02_enum_nontrivial (cases : list mcase) : nat :=
+  count_true (fun c => match mc_go c with GoOk (_ :: _) => negb (match pvars (mc_p c) with [] => true | _ => false end) | _ => false end) cases.
